@@ -112,6 +112,11 @@ func (c *XAConn) ExecContext(ctx context.Context, query string, args []driver.Na
 // BeginTx like common transaction. but it just exec XA START
 func (c *XAConn) BeginTx(ctx context.Context, opts driver.TxOptions) (driver.Tx, error) {
 	if !tm.IsGlobalTx(ctx) {
+		if c.txCtx.TransactionMode == types.XAMode {
+			// the context an XA branch left on this connection must not turn a plain local
+			// transaction into a branch without a transaction behind it
+			c.txCtx = types.NewTxCtx()
+		}
 		tx, err := c.Conn.BeginTx(ctx, opts)
 		return tx, err
 	}
